@@ -187,6 +187,166 @@ theorem recordBytes_total (tail fol : Bytes) (h : 4 ≤ tail.length) : ∃ r, re
     cases c <;> exact ⟨_, rfl⟩
   · exact ⟨_, rfl⟩
 
+theorem contLoop_zero' (fuel : Nat) (fol : Bytes) : contLoop fuel fol 0 = .ok (some []) := by
+  cases fuel with
+  | zero => rfl
+  | succ fuel => unfold contLoop; rw [if_neg (by omega)]; rfl
+
+theorem headerSize_cases (info : Nat) : headerSize info = 24 ∨ headerSize info = 40 := by
+  unfold headerSize; split <;> simp
+
+/-- one iteration of the continuation loop, with the page header already read -/
+theorem contLoop_succ (fuel : Nat) (fol : Bytes) (need : Nat) (hneed : 0 < need) (hlen : 8192 ≤ fol.length) :
+    ∃ h, parsePageHeader (fol.take 8192) = .ok h ∧
+      contLoop (fuel + 1) fol need =
+        if !isValidMagic h.magic || h.info &&& 0x0001 == 0 || h.remLen != need then .ok none
+        else match contLoop fuel (fol.drop 8192) (need - min (8192 - headerSize h.info) need) with
+          | .ok (some more) =>
+            .ok (some (((fol.take 8192).take (headerSize h.info + min (8192 - headerSize h.info) need)).drop (headerSize h.info) ++ more))
+          | .ok none => .ok none
+          | .error e => .error e := by
+  obtain ⟨h, hh⟩ := parsePageHeader_total (fol.take 8192) (by rw [List.length_take]; omega)
+  refine ⟨h, hh, ?_⟩
+  have hhs := headerSize_cases h.info
+  have hn : (if 8192 - headerSize h.info > need then need else 8192 - headerSize h.info) = min (8192 - headerSize h.info) need := by
+    split <;> omega
+  conv => lhs; unfold contLoop
+  rw [if_pos hneed, if_neg (by omega), sliceTo_ok fol 8192 hlen]
+  simp only [ok_bind, hh]
+  split
+  · rfl
+  · rw [hn, slice_ok _ _ _ (by rw [List.length_take]; omega) (by omega), sliceFrom_ok fol 8192 hlen]
+    simp only [ok_bind]
+    cases contLoop fuel (fol.drop 8192) (need - min (8192 - headerSize h.info) need) with
+    | error e => rfl
+    | ok r => cases r <;> rfl
+
+/-- **fixes/wal/11, `continuationData_short`.**  With fewer bytes following than are still missing, continuationData
+returns nil: the guard `totalLen-len(recData) <= len(following)` of parseWALPage never changes a result, it only keeps
+the buffer that is allocated below the size of the input. -/
+theorem contLoop_short (fuel : Nat) (fol : Bytes) (need : Nat) (hneed : 0 < need) (hf : need ≤ fuel)
+    (hs : fol.length < need) : contLoop fuel fol need = .ok none := by
+  induction fuel generalizing fol need with
+  | zero => omega
+  | succ fuel ih =>
+    by_cases hlen : 8192 ≤ fol.length
+    · obtain ⟨h, _, e⟩ := contLoop_succ fuel fol need hneed hlen
+      have hhs := headerSize_cases h.info
+      rw [e]
+      split
+      · rfl
+      · rw [ih (fol.drop 8192) _ (by omega) (by omega) (by rw [List.length_drop]; omega)]
+    · unfold contLoop
+      rw [if_pos hneed, if_pos (by omega)]
+      rfl
+
+theorem continuationData_short (fol : Bytes) (need : Nat) (hs : fol.length < need) :
+    continuationData fol need = .ok none := by
+  unfold continuationData
+  split
+  · rename_i hneed
+    exact contLoop_short need fol need hneed (Nat.le_refl _) hs
+  · rfl
+
+/-- what continuationData returns has exactly the length asked for — so the buffer parseWALPage builds from it,
+`make([]byte, 0, totalLen)`, is filled exactly -/
+theorem contLoop_length (fuel : Nat) (fol : Bytes) (need : Nat) (hf : need ≤ fuel) (out : Bytes)
+    (h : contLoop fuel fol need = .ok (some out)) : out.length = need := by
+  induction fuel generalizing fol need out with
+  | zero =>
+    have : need = 0 := by omega
+    subst this
+    rw [contLoop_zero'] at h
+    cases h; rfl
+  | succ fuel ih =>
+    by_cases hneed : 0 < need
+    · by_cases hlen : 8192 ≤ fol.length
+      · obtain ⟨hd, _, e⟩ := contLoop_succ fuel fol need hneed hlen
+        have hhs := headerSize_cases hd.info
+        rw [e] at h
+        split at h
+        · cases h
+        · cases hc : contLoop fuel (fol.drop 8192) (need - min (8192 - headerSize hd.info) need) with
+          | error e' => rw [hc] at h; cases h
+          | ok r =>
+            cases r with
+            | none => rw [hc] at h; cases h
+            | some more =>
+              rw [hc] at h
+              have hm := ih (fol.drop 8192) _ (by omega) more hc
+              cases h
+              simp only [List.length_append, List.length_drop, List.length_take, hm]
+              omega
+      · unfold contLoop at h
+        rw [if_pos hneed, if_pos (by omega)] at h
+        cases h
+    · have : need = 0 := by omega
+      subst this
+      rw [contLoop_zero'] at h
+      cases h; rfl
+
+theorem continuationData_length (fol : Bytes) (need : Nat) (out : Bytes)
+    (h : continuationData fol need = .ok (some out)) : out.length = need ∧ need ≤ fol.length := by
+  refine ⟨?_, ?_⟩
+  · unfold continuationData at h
+    split at h
+    · exact contLoop_length need fol need (Nat.le_refl _) out h
+    · cases h
+  · apply Nat.le_of_not_lt
+    intro hlt
+    rw [continuationData_short fol need hlt] at h
+    cases h
+
+/-- parseWALPage's reassembly without the allocation guard: the same function (`continuationData_short`) -/
+theorem recordBytes_eq (tail fol : Bytes) :
+    recordBytes tail fol = (do
+      let totalLen ← uN 4 tail 0
+      if totalLen > tail.length then do
+        match ← continuationData fol (totalLen - tail.length) with
+        | some cont => pure (tail ++ cont)
+        | none => pure tail
+      else pure tail) := by
+  unfold recordBytes
+  cases uN 4 tail 0 with
+  | error e => rfl
+  | ok totalLen =>
+    simp only [ok_bind]
+    by_cases h1 : totalLen > tail.length
+    · by_cases h2 : totalLen - tail.length ≤ fol.length
+      · rw [if_pos (by simp only [Bool.and_eq_true, decide_eq_true_eq]; exact ⟨h1, h2⟩), if_pos h1]
+        rfl
+      · rw [if_neg (by simp only [Bool.and_eq_true, decide_eq_true_eq]; omega), if_pos h1,
+          continuationData_short fol _ (by omega)]
+        rfl
+    · rw [if_neg (by simp only [Bool.and_eq_true, decide_eq_true_eq]; omega), if_neg h1]
+
+/-- the buffer parseWALPage hands to parseXLogRecord is never longer than the bytes that are there (the rest of the
+page plus the following pages), and when it was put together it has exactly xl_tot_len bytes -/
+theorem recordBytes_length (tail fol out : Bytes) (h : recordBytes tail fol = .ok out) :
+    out.length ≤ tail.length + fol.length ∧ (out = tail ∨ uN 4 tail 0 = .ok out.length) := by
+  rw [recordBytes_eq] at h
+  cases hu : uN 4 tail 0 with
+  | error e => rw [hu] at h; cases h
+  | ok totalLen =>
+    rw [hu] at h
+    simp only [ok_bind] at h
+    by_cases h1 : totalLen > tail.length
+    · rw [if_pos h1] at h
+      cases hc : continuationData fol (totalLen - tail.length) with
+      | error e => rw [hc] at h; cases h
+      | ok r =>
+        rw [hc] at h
+        cases r with
+        | none => cases h; exact ⟨by omega, .inl rfl⟩
+        | some cont =>
+          obtain ⟨hl, hf⟩ := continuationData_length fol _ cont hc
+          cases h
+          refine ⟨by rw [List.length_append]; omega, .inr ?_⟩
+          rw [List.length_append, hl]
+          congr 1; congr 1; omega
+    · rw [if_neg h1] at h
+      cases h; exact ⟨by omega, .inl rfl⟩
+
 theorem recordLoop_total (data fol : Bytes) (pa magic fuel pos : Nat) :
     ∃ r, recordLoop data fol pa magic fuel pos = .ok r := by
   induction fuel generalizing pos with
@@ -797,7 +957,7 @@ theorem parseXLogRecord_hdr (r : Spec.Wal.WalRecord) {v : Bool} (hr : r.WF v) (t
   rw [if_neg (by simp only [List.length_append]; omega)]
   rw [show uN 4 (encRecHeader r ++ tail) 0 = .ok r.totLen by rw [e0]; exact uN_mid 4 _ _ _ _ rfl (by omega)]
   simp only [ok_bind]
-  rw [if_neg (by simp only [Bool.or_eq_true, decide_eq_true_eq]; omega)]
+  rw [if_neg (by unfold xlogRecordMaxSize; simp only [Bool.or_eq_true, decide_eq_true_eq]; omega)]
   rw [show uN 4 (encRecHeader r ++ tail) 4 = .ok r.xid by rw [e1]; exact uN_mid 4 _ _ _ _ (by simp) (by omega),
       show uN 8 (encRecHeader r ++ tail) 8 = .ok r.prev by rw [e2]; exact uN_mid 8 _ _ _ _ (by simp) (by omega),
       show idx (encRecHeader r ++ tail) 16 = .ok (UInt8.ofNat r.info) by rw [e3]; exact idx_mid _ _ _ _ (by simp),
@@ -926,7 +1086,7 @@ theorem recordLoop_end (data fol : Bytes) (pa magic fuel pos : Nat) (h : data.le
 theorem recordBytes_whole (r : Spec.Wal.WalRecord) {v : Bool} (hr : r.WF v) (rest fol : Bytes) :
     recordBytes (encRecord r ++ rest) fol = .ok (encRecord r ++ rest) := by
   have hlen := encRecord_length r
-  have htot : r.totLen ≤ 16000 := hr.2.2.2.2.2.2.2.2.2.2
+  have htot : r.totLen ≤ 1069547520 := hr.2.2.2.2.2.2.2.2.2.2
   unfold recordBytes
   rw [show uN 4 (encRecord r ++ rest) 0 = .ok r.totLen by
     rw [encRecord_le4]; simp only [List.append_assoc]; exact uN_mid 4 _ [] _ 0 rfl (by omega)]
@@ -940,12 +1100,13 @@ theorem recordBytes_cut (r : Spec.Wal.WalRecord) {v : Bool} (hr : r.WF v) (n : N
     (hc : continuationData fol (r.totLen - n) = .ok (some ((encRecord r).drop n))) :
     recordBytes ((encRecord r).take n) fol = .ok (encRecord r) := by
   have hlen := encRecord_length r
-  have htot : r.totLen ≤ 16000 := hr.2.2.2.2.2.2.2.2.2.2
+  have htot : r.totLen ≤ 1069547520 := hr.2.2.2.2.2.2.2.2.2.2
   unfold recordBytes
   rw [show uN 4 ((encRecord r).take n) 0 = .ok r.totLen by
     rw [encRecord_le4, List.take_append, le_length, List.take_of_length_le (by simp; omega)]
     exact uN_mid 4 _ [] _ 0 rfl (by omega)]
   simp only [ok_bind]
+  have hfol := (continuationData_length fol _ _ hc).2
   rw [if_pos (by simp only [Bool.and_eq_true, decide_eq_true_eq, List.length_take, hlen]; omega)]
   rw [List.length_take, hlen, show min n r.totLen = n by omega, hc]
   simp only [ok_bind, pure_eq_ok, List.take_append_drop]
